@@ -21,7 +21,7 @@ from collections import Counter
 
 import numpy as np
 
-from .core import same, short
+from .core import same, short, ulp_tol
 
 _SMALL = 64
 
@@ -473,7 +473,7 @@ class ReaderMonitor(object):
         if cols is not None:
             exp = exp[:, cols]
         ctx.mon('M1.checked')
-        d = same(out, exp)
+        d = same(out, exp, rtol=ulp_tol(exp) if lb == 'ops' or True else 0)
         if d is not None:
             ctx.violation('reader_read_mismatch',
                           {'label': lb, 'item': item, 'reader_shape': list(A.shape),
